@@ -103,6 +103,8 @@ type State struct {
 	formal  *specDef // non-nil: definitional state of a spec function (heap maps are formals)
 	pcSet   map[string]bool
 	alloc0  Term
+	lits    map[string]string
+	litN    int
 }
 
 func (st *State) top() *Frame { return st.frames[len(st.frames)-1] }
